@@ -1,4 +1,5 @@
-(* Lemmas and theorems for C08 (Model/Fmt.v). *)
+(* Lemmas and theorems for C08 (Model/Fmt2.v: the subset of Model/Fmt.v extended by maps, tuple-structs, tables,
+   comments, enums, function definitions with arms, match expressions, patterns and comprehensions). *)
 From Coq Require Import List Arith Lia PeanoNat Bool ZArith.
 From Coq Require Import String Ascii.
 From MechV Require Import Base.Sexp Base.Obs Model.Fmt2.
@@ -23,6 +24,8 @@ Section ExInd.
   Hypothesis HSet : forall es, Forall P es -> P (ESet es).
   Hypothesis HTup : forall es, Forall P es -> P (ETup es).
   Hypothesis HRec : forall bs, Forall (fun b => P (snd b)) bs -> P (ERec bs).
+  Hypothesis HMap : forall ms, Forall (fun m => P (fst m) /\ P (snd m)) ms -> P (EMap ms).
+  Hypothesis HTupS : forall n e, P e -> P (ETupS n e).
   Hypothesis HCall : forall g args, Forall (fun a => P (snd a)) args -> P (ECall g args).
   Hypothesis HSlice : forall x subs, Forall P subs -> P (ESlice x subs).
   Hypothesis HDot : forall s, P (EDot s).
@@ -52,6 +55,10 @@ Section ExInd.
     | ERec bs =>
         HRec bs ((fix go (q : list (string * option kind * ex)) : Forall (fun b => P (snd b)) q :=
                     match q with [] => Forall_nil _ | b :: q' => Forall_cons _ (ex_ind' (snd b)) (go q') end) bs)
+    | EMap ms =>
+        HMap ms ((fix go (q : list (ex * ex)) : Forall (fun m => P (fst m) /\ P (snd m)) q :=
+                    match q with [] => Forall_nil _ | m :: q' => Forall_cons _ (conj (ex_ind' (fst m)) (ex_ind' (snd m))) (go q') end) ms)
+    | ETupS n e => HTupS n e (ex_ind' e)
     | ECall g args =>
         HCall g args ((fix go (q : list (option string * ex)) : Forall (fun a => P (snd a)) q :=
                          match q with [] => Forall_nil _ | a :: q' => Forall_cons _ (ex_ind' (snd a)) (go q') end) args)
@@ -140,7 +147,7 @@ Definition cont_level (ts : list tok) : nat :=
 (* nothing that would extend a factor: kind annotation, call, subscript *)
 Definition post0 (ts : list tok) : bool :=
   match ts with
-  | TSym (SOp OLt) :: _ | TSym LP :: _ | TSym LB :: _ | TSym Dot :: _ => false
+  | TSym (SOp OLt) :: _ | TSym LP :: _ | TSym LB :: _ | TSym Dot :: TId _ :: _ => false
   | _ => true
   end.
 Definition post_ok (ts : list tok) : bool := post0 ts && negb (hd_is t_apos ts).
@@ -153,19 +160,20 @@ Proof. unfold post_ok. intros H. apply andb_prop in H as [_ H]. apply negb_true_
 
 Lemma pkind_none ts : post0 ts = true -> pkind ts = None.
 Proof.
-  destruct ts as [|t r]; [reflexivity|]. destruct t as [| | | | | |s]; try reflexivity.
-  destruct s as [| | | | | | | | | | | | | | | | |o| | |]; try reflexivity. destruct o; try reflexivity. discriminate.
+  destruct ts as [|t r]; [reflexivity|]. destruct t as [| | | | | |s|]; try reflexivity.
+  destruct s as [| | | | | | | | | | | | | | | | | | | | | | | | |o| | |]; try reflexivity. destruct o; try reflexivity. discriminate.
 Qed.
 
 Lemma psub_none m base ts : post0 ts = true -> psub m base ts = None.
 Proof.
-  destruct ts as [|t r]; [reflexivity|]. destruct t as [| | | | | |s]; try reflexivity.
-  destruct s; try reflexivity; discriminate.
+  destruct ts as [|t r]; [reflexivity|]. destruct t as [| | | | | |s|]; try reflexivity.
+  destruct s; try reflexivity; try discriminate.
+  destruct r as [|[| | | | | | |] r]; try reflexivity; discriminate.
 Qed.
 
 Lemma hd_lp_post0 ts : post0 ts = true -> hd_is t_lp ts = false.
 Proof.
-  destruct ts as [|t r]; [reflexivity|]. destruct t as [| | | | | |s]; try reflexivity.
+  destruct ts as [|t r]; [reflexivity|]. destruct t as [| | | | | |s|]; try reflexivity.
   destruct s; try reflexivity; discriminate.
 Qed.
 
@@ -202,7 +210,7 @@ Qed.
 Lemma pop_none k operand r : cont_level r <> k -> pop k operand r = None.
 Proof.
   unfold pop, cont_level. intros H.
-  destruct r as [|[| | | | | |s] [|[| | | | | |[| | | | | | | | | | | | | | | | |o| | |]] [|[| | | | | |s3] r]]]; try reflexivity.
+  destruct r as [|[| | | | | |s|] [|[| | | | | |[| | | | | | | | | | | | | | | | | | | | | | | | |o| | |]|] [|[| | | | | |s3|] r]]]; try reflexivity.
   destruct (Nat.eqb (op_level o) k) eqn:E; [|reflexivity]. apply Nat.eqb_eq in E. contradiction.
 Qed.
 
@@ -229,6 +237,7 @@ Proof.
   - destruct l; cbn [fmt_lit app]; eexists _, _; (split; [reflexivity|discriminate]).
   - rewrite <- app_assoc. apply IHe.
   - rewrite <- app_assoc. apply IHe.
+  - destruct ms; cbn [app]; eexists _, _; (split; [reflexivity|discriminate]).
   - destruct inc as [[i1 s]|]; rewrite <- app_assoc; apply IHe1.
 Qed.
 
@@ -239,6 +248,7 @@ Proof.
   - destruct (fmt_head_nsp e r0) as (t & tl & -> & Ht). destruct t; try reflexivity. contradiction.
   - rewrite <- app_assoc. apply IHe.
   - rewrite <- app_assoc. apply IHe.
+  - destruct ms; reflexivity.
   - destruct inc as [[i1 s]|]; rewrite <- app_assoc; apply IHe1.
 Qed.
 
@@ -282,7 +292,7 @@ Definition closer (t : tok) : bool :=
 Lemma pfac_closer n t r : closer t = true -> pfac n (t :: r) = None.
 Proof.
   intros H. destruct n as [|n]; [reflexivity|].
-  destruct t as [| | | | | |s]; try discriminate; try reflexivity.
+  destruct t as [| | | | | |s|]; try discriminate; try reflexivity.
   destruct s; try discriminate; reflexivity.
 Qed.
 
@@ -295,7 +305,7 @@ Proof. intros H. unfold pexp. rewrite lev_none by exact H. reflexivity. Qed.
 Lemma pfac_colon n t r : closer t = true -> pfac n (TSym Colon :: t :: r) = None.
 Proof.
   intros H. destruct n as [|n]; [reflexivity|].
-  destruct t as [| | | | | |s]; try discriminate; reflexivity.
+  destruct t as [| | | | | |s|]; try discriminate; reflexivity.
 Qed.
 
 (* ------------------------------------------------------------------ the statements proved by induction *)
@@ -363,7 +373,8 @@ Qed.
 Lemma core_ok_lit l k : core_ok (ELit l k).
 Proof.
   intros n m rest _ _ Hp. cbn [fmt]. rewrite <- app_assoc.
-  destruct l; cbn [fmt_lit app pcore]; unfold with_kind; rewrite optkind_ok by auto; reflexivity.
+  destruct l; cbn [fmt_lit app pcore]; try (unfold with_kind; rewrite optkind_ok by auto; reflexivity).
+  rewrite (proj1 (okind_follow k rest Hp)). unfold with_kind; rewrite optkind_ok by auto; reflexivity.
 Qed.
 
 Lemma exp_ok_var x k : exp_ok (EVar x k).
@@ -377,7 +388,7 @@ Definition sepclose (t : tok) : bool :=
 
 Lemma sepclose_R r : hd_is sepclose r = true -> R_exp r.
 Proof.
-  destruct r as [|t r]; [discriminate|]. destruct t as [| | | | | |s]; try discriminate.
+  destruct r as [|t r]; [discriminate|]. destruct t as [| | | | | |s|]; try discriminate.
   - intros _. repeat split.
   - destruct s; try discriminate; intros _; repeat split.
 Qed.
@@ -537,12 +548,19 @@ Proof.
     + apply sepclose_R; reflexivity.
 Qed.
 
+Lemma pmapping_closer n m t r : closer t = true -> pmapping m (pfac n) (t :: r) = None.
+Proof. intros H. unfold pmapping. rewrite pexp_closer by exact H. reflexivity. Qed.
+
+Lemma pbind_closer n m t r : closer t = true -> pbind m (pfac n) (t :: r) = None.
+Proof. intros H. unfold pbind. rewrite pexp_closer by exact H. reflexivity. Qed.
+
 Lemma core_ok_set es : Forall exp_ok es -> core_ok (ESet es).
 Proof.
   intros IH n m rest Hn Hm Hp. cbn [fmt] in *. cbn [List.length] in Hn, Hm. rewrite app_length in Hn, Hm. cbn [List.length] in Hn, Hm.
   destruct es as [|x xs].
   - cbn [map join app pcore].
-    rewrite (plist1_none m sep_comma_sp (pbind m (pfac n))) by (unfold pbind; rewrite pexp_closer by reflexivity; reflexivity).
+    rewrite (plist1_none m sep_comma_sp (pbind m (pfac n))) by (apply pbind_closer; reflexivity).
+    rewrite (plist1_none m sep_comma_sp (pmapping m (pfac n))) by (apply pmapping_closer; reflexivity).
     rewrite plist1_none by (apply pexp_closer; reflexivity). reflexivity.
   - cbn [app pcore]. rewrite <- app_assoc. cbn [app].
     assert (Hset : plist1 m sep_comma_sp (pexp m (pfac n)) (join [TSym Comma; TSp] (map f (x :: xs)) ++ TSym RC :: rest)
@@ -550,13 +568,69 @@ Proof.
     { apply pe_list_ok; try reflexivity; try lia; try assumption.
       - intros; apply R_comma_sp.
       - apply sepclose_R; reflexivity. }
-    assert (Hrec : plist1 m sep_comma_sp (pbind m (pfac n)) (join [TSym Comma; TSp] (map f (x :: xs)) ++ TSym RC :: rest) = None).
-    { apply plist1_none. unfold pbind. rewrite join_map_cons, <- app_assoc.
-      pose proof (join_len_in [TSym Comma; TSp] f (x :: xs) x (or_introl eq_refl)).
+    pose proof (join_len_in [TSym Comma; TSp] f (x :: xs) x (or_introl eq_refl)) as Hlx.
+    assert (Hx : pexp m (pfac n) (join [TSym Comma; TSp] (map f (x :: xs)) ++ TSym RC :: rest) =
+                 Some (x, match xs with [] => TSym RC :: rest | _ => flat_map (fun y => [TSym Comma; TSp] ++ f y) xs ++ TSym RC :: rest end)).
+    { rewrite join_map_cons, <- app_assoc.
       rewrite (exp_at x n m); try lia; [|inversion IH; assumption|].
       - destruct xs as [|y ys]; reflexivity.
       - destruct xs as [|y ys]; apply sepclose_R; reflexivity. }
-    rewrite Hrec, Hset. reflexivity.
+    assert (Hrec : plist1 m sep_comma_sp (pbind m (pfac n)) (join [TSym Comma; TSp] (map f (x :: xs)) ++ TSym RC :: rest) = None).
+    { apply plist1_none. unfold pbind. rewrite Hx. destruct xs as [|y ys]; reflexivity. }
+    assert (Hmap : plist1 m sep_comma_sp (pmapping m (pfac n)) (join [TSym Comma; TSp] (map f (x :: xs)) ++ TSym RC :: rest) = None).
+    { apply plist1_none. unfold pmapping. rewrite Hx. destruct xs as [|y ys]; reflexivity. }
+    rewrite Hrec, Hmap, Hset. reflexivity.
+Qed.
+
+Definition gmap (mp : ex * ex) : list tok := f (fst mp) ++ TSym Colon :: TSp :: f (snd mp).
+
+Lemma gmap_len mp : List.length (f (fst mp)) <= List.length (gmap mp) /\ List.length (f (snd mp)) <= List.length (gmap mp) /\
+                    1 <= List.length (gmap mp).
+Proof.
+  destruct mp as [k v]. unfold gmap. cbn [fst snd]. rewrite app_length. cbn [List.length].
+  pose proof (fmt_len_pos k). lia.
+Qed.
+
+Definition is_var (e : ex) : bool := match e with EVar _ _ => true | _ => false end.
+
+Lemma core_ok_map ms :
+  match ms with (k0, _) :: _ => is_var k0 = false | [] => True end ->
+  Forall (fun mp => exp_ok (fst mp) /\ exp_ok (snd mp)) ms -> core_ok (EMap ms).
+Proof.
+  intros Hk0 IH n m rest Hn Hm Hp. cbn [fmt] in *.
+  destruct ms as [|m0 ms'].
+  - cbn [app pcore].
+    rewrite (plist1_none m sep_comma_sp (pbind m (pfac n))) by (unfold pbind; rewrite pexp_none by (apply pfac_colon; reflexivity); reflexivity).
+    rewrite (plist1_none m sep_comma_sp (pmapping m (pfac n))) by (unfold pmapping; rewrite pexp_none by (apply pfac_colon; reflexivity); reflexivity).
+    rewrite plist1_none by (apply pexp_none, pfac_colon; reflexivity). reflexivity.
+  - change (map (fun mp => f (fst mp) ++ TSym Colon :: TSp :: f (snd mp)) (m0 :: ms')) with (map gmap (m0 :: ms')) in *.
+    cbn [List.length] in Hn, Hm. rewrite app_length in Hn, Hm. cbn [List.length] in Hn, Hm.
+    cbn [app pcore]. rewrite <- app_assoc. cbn [app].
+    pose proof (join_len_in [TSym Comma; TSp] gmap (m0 :: ms') m0 (or_introl eq_refl)) as Hl0.
+    pose proof (gmap_len m0) as (Hl1 & Hl2 & _).
+    assert (Hrec : plist1 m sep_comma_sp (pbind m (pfac n)) (join [TSym Comma; TSp] (map gmap (m0 :: ms')) ++ TSym RC :: rest) = None).
+    { apply plist1_none. unfold pbind. rewrite join_map_cons, <- app_assoc. unfold gmap at 1. rewrite <- app_assoc.
+      inversion IH as [|? ? [Hk _] _]; subst.
+      rewrite (exp_at (fst m0) n m _ Hk) by (try lia; apply sepclose_R; reflexivity).
+      cbn [app]. destruct m0 as [k0 v0]. cbn [fst] in *. destruct k0; try reflexivity. discriminate Hk0. }
+    rewrite Hrec.
+    rewrite (plist1_ok gmap [TSym Comma; TSp] sep_comma_sp (pmapping m (pfac n)) (fun r => hd_is sepclose r = true));
+      try reflexivity.
+    + pose proof (join_len_count [TSym Comma; TSp] gmap (m0 :: ms') (fun b _ => proj2 (proj2 (gmap_len b)))) as Hc.
+      cbn [List.length] in Hc. lia.
+    + intros mp r Hin Hr. rewrite Forall_forall in IH. destruct (IH _ Hin) as [Hk Hv].
+      pose proof (join_len_in [TSym Comma; TSp] gmap (m0 :: ms') mp Hin) as Hl. pose proof (gmap_len mp) as (Hk1 & Hk2 & _).
+      unfold pmapping, gmap. rewrite <- app_assoc.
+      rewrite (exp_at (fst mp) n m _ Hk) by (try lia; apply sepclose_R; reflexivity).
+      cbn [app]. rewrite (exp_at (snd mp) n m _ Hv) by (try lia; apply sepclose_R; exact Hr).
+      destruct mp; reflexivity.
+Qed.
+
+Lemma core_ok_tups nm e : exp_ok e -> core_ok (ETupS nm e).
+Proof.
+  intros IH n m rest Hn Hm Hp. cbn [fmt] in *. cbn [List.length] in Hn, Hm. rewrite app_length in Hn, Hm. cbn in Hn, Hm.
+  cbn [app pcore hd_is t_lp List.tl]. rewrite <- app_assoc. cbn [app].
+  rewrite (exp_at e n m _ IH) by (try lia; apply sepclose_R; reflexivity). reflexivity.
 Qed.
 
 Definition t_semi_rb (t : tok) : bool := match t with TSym Semi | TSym RB => true | _ => false end.
@@ -585,11 +659,11 @@ Proof.
       pose proof (join_len_in [TSym Semi; TSp] grow (row0 :: rows') row Hin) as Hl.
       specialize (Hne _ Hin). destruct row as [|x xs]; [contradiction|]. unfold grow in *.
       assert (Hsc : hd_is sepclose r = true).
-      { destruct r as [|[| | | | | |[]] r]; try discriminate; reflexivity. }
+      { destruct r as [|[| | | | | |[]|] r]; try discriminate; reflexivity. }
       apply pe_list_ok; try reflexivity; try lia; try assumption.
       * intros; apply R_after_sp.
       * apply sepclose_R; exact Hsc.
-      * destruct r as [|[| | | | | |[]] r]; try discriminate; exact I.
+      * destruct r as [|[| | | | | |[]|] r]; try discriminate; exact I.
 Qed.
 
 Definition garg (a : option string * ex) : list tok :=
@@ -630,7 +704,7 @@ Proof.
         rewrite (exp_at (EVar nm None) n m _ (exp_ok_var nm None) H1n H1m) by (apply sepclose_R; reflexivity).
         cbn [app]. rewrite (exp_at v n m _ IH) by (try lia; apply sepclose_R; exact Hr). reflexivity.
       * rewrite (exp_at v n m _ IH) by (try lia; apply sepclose_R; exact Hr).
-        destruct r as [|[| | | | | |[]] r]; try discriminate; reflexivity.
+        destruct r as [|[| | | | | |[]|] r]; try discriminate; reflexivity.
     + intros; split; reflexivity.
     + split; reflexivity.
 Qed.
@@ -673,10 +747,10 @@ Proof.
   - intros x r Hin Hr. rewrite Forall_forall in IH. specialize (IH _ Hin).
     pose proof (join_len_in [TSym Comma] f (x0 :: xs) x Hin) as Hl.
     unfold pix. destruct IH as [->|IH].
-    + cbn [fmt app]. destruct r as [|[| | | | | |[]] r]; try discriminate;
+    + cbn [fmt app]. destruct r as [|[| | | | | |[]|] r]; try discriminate;
         rewrite pexp_none by (apply pfac_colon; reflexivity); reflexivity.
     + rewrite (exp_at x n m _ IH); try lia; [reflexivity|].
-      apply sepclose_R. destruct r as [|[| | | | | |[]] r]; try discriminate; reflexivity.
+      apply sepclose_R. destruct r as [|[| | | | | |[]|] r]; try discriminate; reflexivity.
 Qed.
 
 Lemma core_ok_slice x subs : subs <> [] -> Forall (fun s => is_sub s = true /\ sub_ok s) subs -> core_ok (ESlice x subs).
@@ -784,6 +858,17 @@ Proof.
     + destruct bs; [discriminate|discriminate].
     + rewrite forallb_forall in Hw. rewrite Forall_forall in *.
       intros y Hy. specialize (Hw _ Hy). apply andb_prop in Hw as [Hwx Hex]. destruct (H _ Hy Hwx) as (_ & _ & _ & He & _). apply He, Hex.
+  - (* map *)
+    apply andb_prop in Hw as [Hk0 Hw]. apply from_core; [reflexivity|]. apply core_ok_map.
+    + destruct ms as [|[k0 v0] ms']; [exact I|]. destruct k0; try reflexivity. discriminate Hk0.
+    + rewrite forallb_forall in Hw. rewrite Forall_forall in *.
+      intros y Hy. specialize (Hw _ Hy). apply andb_prop in Hw as [Hw Hev]. apply andb_prop in Hw as [Hw Hwv].
+      apply andb_prop in Hw as [Hwk Hek]. destruct (H _ Hy) as [H1 H2].
+      destruct (H1 Hwk) as (_ & _ & _ & He1 & _). destruct (H2 Hwv) as (_ & _ & _ & He2 & _).
+      split; [apply He1, Hek | apply He2, Hev].
+  - (* tuple-struct *)
+    apply andb_prop in Hw as [Hw Hf]. destruct (IHe Hw) as (_ & _ & _ & He & _).
+    apply from_core; [reflexivity|]. apply core_ok_tups, He, Hf.
   - (* call *)
     apply from_core; [reflexivity|]. apply core_ok_call. rewrite forallb_forall in Hw. rewrite Forall_forall in *.
     intros y Hy. specialize (Hw _ Hy). apply andb_prop in Hw as [Hwx Hex]. destruct (H _ Hy Hwx) as (_ & _ & _ & He & _). apply He, Hex.
@@ -831,12 +916,13 @@ Proof.
   - destruct l; cbn [fmt_lit app]; eexists _, _; (split; reflexivity).
   - rewrite <- app_assoc. apply IHe.
   - rewrite <- app_assoc. apply IHe.
+  - destruct ms; cbn [app]; eexists _, _; (split; reflexivity).
   - destruct inc as [[i1 s]|]; rewrite <- app_assoc; apply IHe1.
 Qed.
 
 Lemma no_tilde ts t tl : ts = t :: tl -> starter t = true ->
   match ts with TSym Tilde :: r => (true, r) | _ => (false, ts) end = (false, ts).
-Proof. intros -> H. destruct t as [| | | | | |[]]; try discriminate; reflexivity. Qed.
+Proof. intros -> H. destruct t as [| | | | | |[]|]; try discriminate; reflexivity. Qed.
 
 Lemma pexpr_at e n r : wf e = true -> is_expr e = true -> List.length (f e) <= n -> R_exp r ->
   pexpr n (f e ++ r) = Some (e, r).
@@ -868,313 +954,3 @@ Proof.
   intros H. repeat split. destruct s; try reflexivity. exfalso. eapply H. reflexivity.
 Qed.
 
-Lemma pstmt_ok s n rest :
-  wf_stmt s = true -> List.length (fmt_stmt false s) <= n ->
-  pstmt n (fmt_stmt false s ++ TNl :: rest) = Some (s, TNl :: rest).
-Proof.
-  intros Hw Hn. destruct s as [mu x k e|x subs e|x subs a e|e]; cbn [wf_stmt fmt_stmt] in *.
-  - (* define *)
-    apply andb_prop in Hw as [Hwe Hee].
-    assert (Hlen : List.length (f (EVar x k)) + 3 + List.length (f e) <= n).
-    { destruct mu; cbn [app List.length fmt] in *; rewrite app_length in Hn; cbn [List.length] in Hn; lia. }
-    unfold pstmt. destruct mu; cbn [app].
-    + rewrite <- app_assoc. cbn [app].
-      change (TId x :: fmt_okind k ++ TSp :: TSym Define :: TSp :: f e ++ TNl :: rest)
-        with (f (EVar x k) ++ TSp :: TSym Define :: TSp :: f e ++ TNl :: rest).
-      rewrite (pexpr_at (EVar x k) n) by (try reflexivity; try lia; apply R_stmt_op; discriminate).
-      rewrite (pexpr_at e n) by (try assumption; try lia; apply R_nl). reflexivity.
-    + rewrite <- app_assoc. cbn [app].
-      change (TId x :: fmt_okind k ++ TSp :: TSym Define :: TSp :: f e ++ TNl :: rest)
-        with (f (EVar x k) ++ TSp :: TSym Define :: TSp :: f e ++ TNl :: rest).
-      rewrite (pexpr_at (EVar x k) n) by (try reflexivity; try lia; apply R_stmt_op; discriminate).
-      rewrite (pexpr_at e n) by (try assumption; try lia; apply R_nl). reflexivity.
-  - (* assign *)
-    apply andb_prop in Hw as [Hw Hee]. apply andb_prop in Hw as [Hwt Hwe].
-    cbn [List.length] in Hn. rewrite app_length in Hn. cbn [List.length] in Hn.
-    unfold pstmt. cbn [app]. rewrite <- app_assoc. cbn [app].
-    rewrite (target_ok x subs n) by (first [assumption | cbn [List.length]; lia | apply R_stmt_op; discriminate]).
-    destruct subs as [|s0 ss]; rewrite (pexpr_at e n) by (try assumption; try lia; apply R_nl); reflexivity.
-  - (* op-assign *)
-    apply andb_prop in Hw as [Hw Hee]. apply andb_prop in Hw as [Hwt Hwe].
-    cbn [List.length] in Hn. rewrite app_length in Hn. cbn [List.length] in Hn.
-    unfold pstmt. cbn [app]. rewrite <- app_assoc. cbn [app].
-    rewrite (target_ok x subs n) by (first [assumption | cbn [List.length]; lia | apply R_stmt_op; discriminate]).
-    destruct subs as [|s0 ss]; rewrite (pexpr_at e n) by (try assumption; try lia; apply R_nl); reflexivity.
-  - (* expression *)
-    apply andb_prop in Hw as [Hwe Hee]. unfold pstmt.
-    destruct (fmt_head_st e (TNl :: rest)) as (t & tl & Heq & Hst).
-    rewrite (no_tilde _ t tl Heq Hst).
-    rewrite (pexpr_at e n) by (try assumption; apply R_nl). reflexivity.
-Qed.
-
-Theorem fmt_parse_thm p : wf_prog p = true -> parse_tok (fmt_prog false p) = Some p.
-Proof.
-  intros Hw. unfold parse_tok, fmt_prog.
-  set (g := fun s => fmt_stmt false s ++ [TNl]). set (n := List.length (flat_map g p)).
-  assert (H : psep n sep_none (pline n) (flat_map g p ++ []) = (p, [])).
-  { apply (psep_ok g [] sep_none (pline n) (fun _ => True)); auto.
-    - unfold n. apply length_flat_map_ge. intros s. unfold g. rewrite app_length. cbn. lia.
-    - intros s r Hin _. unfold g, pline. rewrite <- app_assoc. cbn [app].
-      unfold wf_prog in Hw. rewrite forallb_forall in Hw.
-      rewrite pstmt_ok; [reflexivity | apply Hw, Hin |].
-      pose proof (flat_len_in g p s Hin) as Hl. unfold g at 1 in Hl. rewrite app_length in Hl. fold n in Hl. lia.
-    - unfold sep_none, pline, pstmt, pexpr. rewrite pexp_none by apply pfac_nil. reflexivity. }
-  rewrite app_nil_r in H. rewrite H. reflexivity.
-Qed.
-
-Theorem fmt_idempotent_thm p p' :
-  wf_prog p = true -> parse_tok (fmt_prog false p) = Some p' -> fmt_prog false p' = fmt_prog false p.
-Proof. intros Hw H. rewrite fmt_parse_thm in H by exact Hw. injection H as <-. reflexivity. Qed.
-
-(* the row structure of a matrix literal survives printing and re-reading *)
-Theorem matrix_rows_preserved_thm rows rows' :
-  wf (EMat rows) = true ->
-  parse_tok (fmt_prog false [SExpr (EMat rows)]) = Some [SExpr (EMat rows')] ->
-  map (@List.length ex) rows' = map (@List.length ex) rows /\ rows' = rows.
-Proof.
-  intros Hw H. rewrite fmt_parse_thm in H.
-  - injection H as <-. split; reflexivity.
-  - cbn [wf_prog forallb wf_stmt is_expr is_formula is_fac]. rewrite Hw. reflexivity.
-Qed.
-
-(* ------------------------------------------------------------------ formatter.rs agrees with the canonical printer outside the defect classes *)
-Lemma nth_seq_id {A} (pan : A) (l : list A) :
-  flat_map (fun c => [nth c l pan]) (seq 0 (List.length l)) = l.
-Proof.
-  induction l as [|a l IH]; [reflexivity|].
-  cbn [List.length seq flat_map nth app]. f_equal.
-  rewrite <- seq_shift, flat_map_map. cbn [nth]. exact IH.
-Qed.
-
-Lemma col_major_single {A} (pan : A) (l : list A) : col_major pan [l] = l.
-Proof. unfold col_major. cbn [map]. apply nth_seq_id. Qed.
-
-Lemma map_ext_Forall {A B} (g h : A -> B) (l : list A) : Forall (fun x => g x = h x) l -> map g l = map h l.
-Proof. induction 1; cbn; congruence. Qed.
-
-Lemma flat_map_ext_Forall {A B} (g h : A -> list B) (l : list A) :
-  Forall (fun x => g x = h x) l -> flat_map g l = flat_map h l.
-Proof. induction 1; cbn; congruence. Qed.
-
-Lemma existsb_false_Forall {A} (P : A -> bool) (l : list A) : existsb P l = false -> Forall (fun x => P x = false) l.
-Proof.
-  induction l as [|x l IH]; cbn; intros H; constructor; apply orb_false_iff in H; tauto.
-Qed.
-
-Lemma Forall_impl2 {A} (P Q R : A -> Prop) (l : list A) :
-  (forall x, P x -> Q x -> R x) -> Forall P l -> Forall Q l -> Forall R l.
-Proof. intros H HP. induction HP; intros HQ; inversion HQ; subst; constructor; auto. Qed.
-
-Lemma opsym_clean o : c_any (ETerm EAll [(o, EAll)]) = false -> opsym true o = SOp o.
-Proof. destruct o; cbn; intros H; try reflexivity; discriminate. Qed.
-
-Lemma c_any_term_ops l r : c_any (ETerm l r) = false -> Forall (fun p => opsym true (fst p) = SOp (fst p)) r.
-Proof.
-  intros H. induction r as [|[o x] r IH]; constructor.
-  - cbn [fst]. apply opsym_clean. unfold c_any, model_classes in *. cbn in *.
-    destruct o; try reflexivity; cbn in H; try discriminate;
-      repeat (rewrite ?orb_true_r, ?orb_true_l in H; cbn in H); discriminate.
-  - apply IH. unfold c_any, model_classes in *. cbn in *.
-    repeat (apply orb_false_iff in H as [? H] || apply orb_false_iff in H as [H ?]).
-    repeat (match goal with Hx : _ || _ = false |- _ => apply orb_false_iff in Hx as [? ?] end).
-    repeat (apply orb_false_iff; split); auto.
-Qed.
-
-Lemma fmt_agree : forall e, exists_ex c_any e = false -> fmt true e = fmt false e.
-Proof.
-  induction e using ex_ind'; intros Hc; cbn [exists_ex] in Hc; try reflexivity.
-  - (* paren *) apply orb_false_iff in Hc as [_ Hc]. cbn [fmt]. rewrite IHe by exact Hc. reflexivity.
-  - apply orb_false_iff in Hc as [_ Hc]. cbn [fmt]. rewrite IHe by exact Hc. reflexivity.
-  - apply orb_false_iff in Hc as [_ Hc]. cbn [fmt]. rewrite IHe by exact Hc. reflexivity.
-  - apply orb_false_iff in Hc as [_ Hc]. cbn [fmt]. rewrite IHe by exact Hc. reflexivity.
-  - (* term *) apply orb_false_iff in Hc as [Hany Hc]. apply orb_false_iff in Hc as [Hl Hr].
-    cbn [fmt]. rewrite IHe by exact Hl. f_equal.
-    apply flat_map_ext_Forall.
-    pose proof (c_any_term_ops _ _ Hany) as Hops. apply existsb_false_Forall in Hr.
-    rewrite Forall_forall in *. intros p Hin. rewrite (Hops _ Hin), (H _ Hin (Hr _ Hin)). reflexivity.
-  - (* mat *) apply orb_false_iff in Hc as [Hany Hc].
-    destruct rows as [|r1 [|r2 rs]]; [reflexivity| |discriminate Hany].
-    cbn [fmt map]. rewrite col_major_single. cbn [join].
-    cbn [existsb] in Hc. rewrite orb_false_r in Hc. apply existsb_false_Forall in Hc.
-    inversion H as [|? ? H1 _]; subst.
-    rewrite (map_ext_Forall (fmt true) f r1); [reflexivity|].
-    rewrite Forall_forall in *. intros x Hin. apply (H1 _ Hin), (Hc _ Hin).
-  - (* set *) apply orb_false_iff in Hc as [_ Hc]. apply existsb_false_Forall in Hc.
-    cbn [fmt]. rewrite (map_ext_Forall (fmt true) f es); [reflexivity|].
-    rewrite Forall_forall in *. intros x Hin. apply (H _ Hin), (Hc _ Hin).
-  - (* tup *) apply orb_false_iff in Hc as [_ Hc]. apply existsb_false_Forall in Hc.
-    cbn [fmt]. rewrite (map_ext_Forall (fmt true) f es); [reflexivity|].
-    rewrite Forall_forall in *. intros x Hin. apply (H _ Hin), (Hc _ Hin).
-  - (* rec *) apply orb_false_iff in Hc as [_ Hc]. apply existsb_false_Forall in Hc.
-    cbn [fmt]. f_equal. f_equal. f_equal. apply map_ext_Forall.
-    rewrite Forall_forall in *. intros b Hin. rewrite (H _ Hin (Hc _ Hin)). reflexivity.
-  - (* call *) apply orb_false_iff in Hc as [Hany Hc]. apply existsb_false_Forall in Hc.
-    assert (Hn : Forall (fun a => fst a = None) args).
-    { unfold c_any, model_classes in Hany. cbn in Hany. rewrite orb_false_r in Hany.
-      apply existsb_false_Forall in Hany. eapply Forall_impl; [|exact Hany].
-      intros [[nm|] v]; cbn; [discriminate|reflexivity]. }
-    cbn [fmt]. f_equal. f_equal. f_equal. f_equal. apply map_ext_Forall.
-    rewrite Forall_forall in *. intros a Hin. rewrite (Hn _ Hin). apply (H _ Hin), (Hc _ Hin).
-  - (* slice *) apply orb_false_iff in Hc as [_ Hc]. apply existsb_false_Forall in Hc.
-    cbn [fmt]. f_equal. apply flat_map_ext_Forall.
-    rewrite Forall_forall in *. intros x0 Hin. apply (H _ Hin), (Hc _ Hin).
-  - (* brk *) apply orb_false_iff in Hc as [_ Hc]. apply existsb_false_Forall in Hc.
-    cbn [fmt]. rewrite (map_ext_Forall (fmt true) f ixs); [reflexivity|].
-    rewrite Forall_forall in *. intros x Hin. apply (H _ Hin), (Hc _ Hin).
-  - (* range *) apply orb_false_iff in Hc as [Hany Hc]. apply orb_false_iff in Hc as [Hc Hi]. apply orb_false_iff in Hc as [Ha Hb].
-    destruct inc as [[i1 s]|]; [discriminate Hany|].
-    cbn [fmt]. rewrite IHe1, IHe2 by assumption. reflexivity.
-Qed.
-
-Lemma fmt_subs_agree subs : existsb (exists_ex c_any) subs = false -> fmt_subs true subs = fmt_subs false subs.
-Proof.
-  intros H. apply existsb_false_Forall in H. unfold fmt_subs. apply flat_map_ext_Forall.
-  eapply Forall_impl; [|exact H]. intros x Hx. apply fmt_agree, Hx.
-Qed.
-
-Theorem holds_thm p : defect_free p = true -> fmt_prog true p = fmt_prog false p.
-Proof.
-  unfold defect_free, exists_prog. intros H. apply negb_true_iff in H. apply existsb_false_Forall in H.
-  unfold fmt_prog. apply flat_map_ext_Forall. eapply Forall_impl; [|exact H].
-  intros s Hs. f_equal. destruct s as [mu x k e|x subs e|x subs a e|e]; cbn [stmt_exprs existsb fmt_stmt] in *.
-  - rewrite orb_false_r in Hs. rewrite fmt_agree by exact Hs. reflexivity.
-  - rewrite existsb_app in Hs. apply orb_false_iff in Hs as [H1 H2]. cbn [existsb] in H2. rewrite orb_false_r in H2.
-    rewrite fmt_subs_agree, fmt_agree by assumption. reflexivity.
-  - rewrite existsb_app in Hs. apply orb_false_iff in Hs as [H1 H2]. cbn [existsb] in H2. rewrite orb_false_r in H2.
-    rewrite fmt_subs_agree, fmt_agree by assumption. reflexivity.
-  - rewrite orb_false_r in Hs. apply fmt_agree, Hs.
-Qed.
-
-Corollary holds_roundtrip p : wf_prog p = true -> defect_free p = true -> parse_tok (fmt_prog true p) = Some p.
-Proof. intros Hw Hd. rewrite holds_thm by exact Hd. apply fmt_parse_thm, Hw. Qed.
-
-(* ------------------------------------------------------------------ the defect classes are real: witnesses *)
-Open Scope string_scope.
-Definition lnum (s : string) : ex := ELit (LNum s) None.
-Definition w_matrix : prog := [SExpr (EMat [[lnum "1"; lnum "2"; lnum "3"]; [lnum "4"; lnum "5"; lnum "6"]])].
-Definition w_named : prog := [SDefine false "y" None (ECall "f" [(Some "k", lnum "1")])].
-Definition w_range : prog := [SExpr (ERange (lnum "1") (Some (false, lnum "2")) false (lnum "10"))].
-Definition w_sneq : prog := [SExpr (ETerm (EVar "a" None) [(OSNeq, EVar "b" None)])].
-Definition w_subset : prog := [SExpr (ETerm (EVar "a" None) [(OSubset, EVar "b" None)])].
-Definition w_cross : prog := [SExpr (ETerm (EVar "a" None) [(OCross, EVar "b" None)])].
-Definition w_jagged : prog := [SExpr (EMat [[lnum "1"; lnum "2"]; [lnum "3"]])].
-
-(* formatter.rs turns the 2x3 literal into the text of a 1x6 literal (column-major order) *)
-Lemma refuted_matrix_rows :
-  wf_prog w_matrix = true /\ class_of w_matrix = Some "matrix-rows" /\
-  render (fmt_prog true w_matrix) = "[1 4 2 5 3 6]" ++ nl /\
-  parse_tok (fmt_prog true w_matrix) =
-    Some [SExpr (EMat [[lnum "1"; lnum "4"; lnum "2"; lnum "5"; lnum "3"; lnum "6"]])] /\
-  parse_tok (fmt_prog true w_matrix) <> Some w_matrix.
-Proof. repeat split; try (vm_compute; reflexivity). vm_compute. discriminate. Qed.
-
-Lemma refuted_named_arg :
-  wf_prog w_named = true /\ class_of w_named = Some "named-arg-colon" /\
-  render (fmt_prog true w_named) = "y := f(k1)" ++ nl /\ parse_tok (fmt_prog true w_named) <> Some w_named.
-Proof. repeat split; try (vm_compute; reflexivity). vm_compute. discriminate. Qed.
-
-Lemma refuted_range_inc :
-  wf_prog w_range = true /\ class_of w_range = Some "range-increment-order" /\
-  render (fmt_prog true w_range) = "1..10..2" ++ nl /\
-  parse_tok (fmt_prog true w_range) = Some [SExpr (ERange (lnum "1") (Some (false, lnum "10")) false (lnum "2"))] /\
-  parse_tok (fmt_prog true w_range) <> Some w_range.
-Proof. repeat split; try (vm_compute; reflexivity). vm_compute. discriminate. Qed.
-
-Lemma refuted_sneq :
-  wf_prog w_sneq = true /\ class_of w_sneq = Some "strict-neq-spelling" /\
-  render (fmt_prog true w_sneq) = "a =/= b" ++ nl /\ parse_tok (fmt_prog true w_sneq) <> Some w_sneq.
-Proof. repeat split; try (vm_compute; reflexivity). vm_compute. discriminate. Qed.
-
-Lemma refuted_subset :
-  wf_prog w_subset = true /\ class_of w_subset = Some "subset-spelling" /\
-  render (fmt_prog true w_subset) = "a ⊂ b" ++ nl /\ parse_tok (fmt_prog true w_subset) <> Some w_subset.
-Proof. repeat split; try (vm_compute; reflexivity). vm_compute. discriminate. Qed.
-
-Lemma refuted_cross :
-  wf_prog w_cross = true /\ class_of w_cross = Some "cross-spelling" /\
-  render (fmt_prog true w_cross) = "a × b" ++ nl /\ parse_tok (fmt_prog true w_cross) <> Some w_cross.
-Proof. repeat split; try (vm_compute; reflexivity). vm_compute. discriminate. Qed.
-
-Lemma refuted_jagged :
-  wf_prog w_jagged = true /\ existsb is_panic (fmt_prog true w_jagged) = true /\
-  parse_tok (fmt_prog false w_jagged) = Some w_jagged.
-Proof. repeat split; vm_compute; reflexivity. Qed.
-Close Scope string_scope.
-
-Definition refutes (id : string) (p : prog) : Prop :=
-  wf_prog p = true /\ class_of p = Some id /\ parse_tok (fmt_prog true p) <> Some p.
-
-Lemma refuted_ex_matrix_rows : exists p, refutes "matrix-rows" p /\
-  exists r1 r2 flat, p = [SExpr (EMat [r1; r2])] /\ List.length r1 = 3 /\ List.length r2 = 3 /\
-    parse_tok (fmt_prog true p) = Some [SExpr (EMat [flat])] /\ List.length flat = 6.
-Proof.
-  exists w_matrix. destruct refuted_matrix_rows as (H1 & H2 & _ & H4 & H5). split; [repeat split; assumption|].
-  eexists _, _, _. split; [reflexivity|]. split; [reflexivity|]. split; [reflexivity|]. split; [exact H4|reflexivity].
-Qed.
-Lemma refuted_ex_named_arg : exists p, refutes "named-arg-colon" p.
-Proof. exists w_named. destruct refuted_named_arg as (H1 & H2 & _ & H4). repeat split; assumption. Qed.
-Lemma refuted_ex_range_inc : exists p, refutes "range-increment-order" p.
-Proof. exists w_range. destruct refuted_range_inc as (H1 & H2 & _ & _ & H4). repeat split; assumption. Qed.
-Lemma refuted_ex_sneq : exists p, refutes "strict-neq-spelling" p.
-Proof. exists w_sneq. destruct refuted_sneq as (H1 & H2 & _ & H4). repeat split; assumption. Qed.
-Lemma refuted_ex_subset : exists p, refutes "subset-spelling" p.
-Proof. exists w_subset. destruct refuted_subset as (H1 & H2 & _ & H4). repeat split; assumption. Qed.
-Lemma refuted_ex_cross : exists p, refutes "cross-spelling" p.
-Proof. exists w_cross. destruct refuted_cross as (H1 & H2 & _ & H4). repeat split; assumption. Qed.
-Lemma refuted_ex_jagged : exists p, wf_prog p = true /\ existsb is_panic (fmt_prog true p) = true /\
-  parse_tok (fmt_prog false p) = Some p.
-Proof. exists w_jagged. exact refuted_jagged. Qed.
-
-(* the texts of the symbols of the vocabulary are pairwise different: a token is determined by its text *)
-Definition in_vocab (s : sym) : bool := match s with SOther _ | SPanic => false | _ => true end.
-
-Lemma sym_text_inj a b : in_vocab a = true -> in_vocab b = true -> sym_text a = sym_text b -> a = b.
-Proof.
-  destruct a as [| | | | | | | | | | | | | | | | |oa|aa|sa|]; try discriminate;
-  destruct b as [| | | | | | | | | | | | | | | | |ob|ab|sb|]; try discriminate; intros _ _;
-  try reflexivity; try (intros; discriminate);
-  try (destruct oa; intros; discriminate); try (destruct ob; intros; discriminate);
-  try (destruct aa; intros; discriminate); try (destruct ab; intros; discriminate).
-  - destruct oa; destruct ob; intros H; try reflexivity; discriminate H.
-  - destruct oa; destruct ab; intros H; discriminate H.
-  - destruct aa; destruct ob; intros H; discriminate H.
-  - destruct aa; destruct ab; intros H; try reflexivity; discriminate H.
-Qed.
-
-(* ------------------------------------------------------------------ judge soundness *)
-(* what an observation must say for the property to hold on this input *)
-Definition observed_roundtrip (o : obs8) : Prop :=
-  exists ob, o = O8Fmt ob /\ o_reparse ob = "ok"%string /\ o_same ob = 1%Z /\ o_idem ob = 1%Z.
-
-Lemma all_good_spec ob : all_good ob = true -> o_reparse ob = "ok"%string /\ o_same ob = 1%Z /\ o_idem ob = 1%Z.
-Proof.
-  unfold all_good. intros H. apply andb_prop in H as [H H3]. apply andb_prop in H as [H1 H2].
-  apply String.eqb_eq in H1. apply Z.eqb_eq in H2, H3. auto.
-Qed.
-
-Lemma judge_prog_sound p o tag :
-  judge_prog p o = v_ok tag ->
-  observed_roundtrip o /\
-  (tag = "roundtrip"%string -> exists ob, o = O8Fmt ob /\ o_text ob = render (fmt_prog false p)).
-Proof.
-  unfold judge_prog. destruct o as [|feat|ob|]; try discriminate.
-  - destruct (existsb is_panic (fmt_prog true p)); discriminate.
-  - destruct (String.eqb (o_text ob) (render (fmt_prog false p))) eqn:Hc.
-    + destruct (all_good ob) eqn:Hg.
-      * intros H. injection H as <-. apply all_good_spec in Hg. split; [exists ob; tauto|].
-        intros _. exists ob. split; [reflexivity|]. apply String.eqb_eq in Hc. exact Hc.
-      * destruct (lex_class_of p); discriminate.
-    + destruct (negb (existsb is_panic (fmt_prog true p)) && String.eqb (o_text ob) (render (fmt_prog true p))); [|discriminate].
-      destruct (all_good ob) eqn:Hg.
-      * intros H. injection H as <-. apply all_good_spec in Hg. split; [exists ob; tauto|]. discriminate.
-      * destruct (class_of p); discriminate.
-Qed.
-
-Lemma judge_diff_sound cls o tag : judge_diff cls o = v_ok tag -> observed_roundtrip o.
-Proof.
-  unfold judge_diff. destruct o as [|feat|ob|]; try discriminate.
-  - destruct (find_class cls feat "fmtpanic"); discriminate.
-  - destruct (all_good ob) eqn:Hg.
-    + intros _. apply all_good_spec in Hg. exists ob; tauto.
-    + destruct (find_class cls (o_feat ob) (symptom ob)); discriminate.
-Qed.
